@@ -61,6 +61,9 @@ func (g *genCtx) value() uint64 {
 
 func (g *genCtx) target(self int) common.Address {
 	r := g.r
+	if r.Chance(6) {
+		return addrN(uint64(r.Range(1, 4))) // precompiles ecrecover, sha256, ripemd160 (the touch special case), identity
+	}
 	if self+1 < len(g.pool) && r.Chance(72) {
 		return g.pool[r.Range(self+1, len(g.pool)-1)]
 	}
@@ -228,6 +231,10 @@ func genCase(r *vh.RNG) *testCase {
 			if r.Chance(3) {
 				t.to = ghostA
 			}
+			if r.Chance(2) {
+				t.to = addrN(uint64(r.Range(1, 4)))
+				t.gas = uint64([]int{10, 100, 700, 5000, 60000}[r.Intn(5)])
+			}
 		}
 		c.txs = append(c.txs, t)
 	}
@@ -281,23 +288,27 @@ func ghostCase(r *vh.RNG) *testCase {
 
 // deepCase: one contract that calls itself until the call-depth limit (1024) stops it; the frames then unwind
 // through whatever the body does after the call (stop, revert, invalid, self-destruct).
-func deepCase(r *vh.RNG) *testCase {
+func deepCase(r *vh.RNG, idx int) *testCase {
 	c := &testCase{deep: true}
 	self := addrN(0xc100)
 	var body []step
-	if r.Chance(40) {
+	kind := []string{"c", "cc", "d", "s", "c"}[idx%5] // every call kind reaches the limit in every run
+	if r.Chance(40) && kind != "s" {
 		body = append(body, step{op: 'W', k: 1, v: uint64(r.Range(0, 2))})
 	}
-	call := step{op: 'C', kind: []string{"c", "c", "cc", "d"}[r.Intn(4)], addr: self, gas: 100000000000000}
+	call := step{op: 'C', kind: kind, addr: self, gas: 100000000000000}
 	if (call.kind == "c" || call.kind == "cc") && r.Chance(40) {
 		call.value = 1
 	}
 	body = append(body, call)
-	if r.Chance(40) {
+	if r.Chance(40) && kind != "s" {
 		body = append(body, step{op: 'L', topics: []uint64{7}})
 	}
 	g := &genCtx{r: r, pool: []common.Address{self}}
 	end := g.ending(0)
+	if kind == "s" && end.op == 'D' {
+		end = step{op: 'S'}
+	}
 	if end.op == 'R' || end.op == 'V' {
 		end.zeros, end.data = 0, nil
 	}
